@@ -416,6 +416,238 @@ fn c05_move_window_0_to_1_light() {
 }
 
 // ---------------------------------------------------------------------------------------------
+// The window-moving step in contract form (quick tier): move_window itself over an ARBITRARY matrix.
+// build_bit_matrix (decided against spec_matrix by the step harnesses) is replaced by a function that
+// returns an arbitrary symbolic matrix, PairTable::maybe_insert (decided by the pair-table harnesses) by
+// a recorder, refresh_kxp (floats; not read by any C05 clause) by a no-op. What is decided is the
+// re-encoding: new window bytes, the list of surprising values handed to the table, the new offset and
+// first_interesting_column - together they must denote exactly the matrix that went in.
+// The sketch is instantiated at lg_k = 2 (4 rows; the code is parametric in lg_k) so that the row loop
+// and the surprising-value loop stay within a small unwind bound.
+// ---------------------------------------------------------------------------------------------
+const MR: usize = 4;
+static mut MW_MATRIX: [u64; MR] = [0; MR];
+static mut MW_REC: [u32; 16] = [0; 16];
+static mut MW_REC_N: usize = 0;
+
+pub(crate) fn mw_build_bit_matrix(_s: &CpcSketch) -> Vec<u64> {
+    let mut v = Vec::new();
+    let mut i = 0;
+    while i < MR {
+        v.push(unsafe { MW_MATRIX[i] });
+        i += 1;
+    }
+    v
+}
+pub(crate) fn mw_maybe_insert(_t: &mut PairTable, item: u32) -> bool {
+    unsafe {
+        if MW_REC_N < 16 {
+            MW_REC[MW_REC_N] = item;
+        }
+        MW_REC_N += 1;
+    }
+    true
+}
+pub(crate) fn mw_refresh_kxp(_s: &mut CpcSketch, _m: &[u64]) {}
+
+fn move_window_contract_case(o: u8) {
+    let new = o + 1;
+    let m: [u64; MR] = kani::any();
+    let early: u64 = (1u64 << new) - 1;
+    let winmask: u64 = 0xFFu64 << new;
+    // bound: at most 2 surprising values per row (surprising zeros below the new offset, surprising ones
+    // above the new window)
+    let mut pats = [0u64; MR];
+    let mut i = 0;
+    while i < MR {
+        pats[i] = (m[i] & !winmask) ^ early;
+        kani::assume(pats[i].count_ones() <= 2);
+        i += 1;
+    }
+    unsafe {
+        MW_MATRIX = m;
+        MW_REC_N = 0;
+    }
+    let mut s = CpcSketch::new(4);
+    s.lg_k = 2;
+    s.sliding_window = [0u8; MR].to_vec();
+    s.window_offset = o;
+    // whatever the old table held is discarded by move_window: one arbitrary stale entry
+    let stale: u32 = kani::any();
+    kani::assume(stale < (4 << 6));
+    s.surprising_value_table = Some(vt::raw_table(2, &[stale, u32::MAX, u32::MAX, u32::MAX]));
+    s.first_interesting_column = kani::any();
+    let c: u32 = kani::any();
+    kani::assume(c <= 4 * 64);
+    kani::assume(determine_correct_offset(2, c) == new);
+    s.num_coupons = c;
+    s.move_window();
+    assert!(s.window_offset == new, "offset after move_window");
+    assert!(s.num_coupons == c);
+    assert!(s.sliding_window.len() == MR);
+    let n = unsafe { MW_REC_N };
+    assert!(n <= 8);
+    assert!(vt::num_items_of(s.surprising_value_table()) == 0 || n > 0, "stale table content survived the move");
+    // the recorded surprising values: strictly increasing (so distinct), each outside the new window
+    let mut j = 0;
+    while j < 8 {
+        if j < n {
+            let rc = unsafe { MW_REC[j] };
+            let col = rc & 63;
+            assert!((rc >> 6) < MR as u32);
+            assert!(col < new as u32 || col >= new as u32 + 8, "a window column was listed as a surprising value");
+            if j > 0 {
+                assert!(unsafe { MW_REC[j - 1] } < rc, "a surprising value was handed to the table twice");
+            }
+        }
+        j += 1;
+    }
+    // the new encoding denotes exactly the matrix that went in
+    let mut ored = 0u64;
+    let mut r = 0;
+    while r < MR {
+        let mut row = early | ((s.sliding_window[r] as u64) << new);
+        let mut j = 0;
+        while j < 8 {
+            if j < n {
+                let rc = unsafe { MW_REC[j] };
+                if (rc >> 6) as usize == r {
+                    row ^= 1u64 << (rc & 63);
+                }
+            }
+            j += 1;
+        }
+        assert!(row == m[r], "window + surprising values after the move do not denote the old matrix");
+        ored |= pats[r];
+        r += 1;
+    }
+    // first_interesting_column: never beyond the new offset, skips only columns that are full in every row
+    let fic = s.first_interesting_column as u32;
+    assert!(fic <= new as u32, "first_interesting_column beyond the window offset: later window / late coupons would be dropped");
+    let low = if fic == 0 { 0 } else { (1u64 << fic) - 1 };
+    let mut r = 0;
+    while r < MR {
+        assert!(m[r] & low == low, "first_interesting_column skips a column that is not full");
+        r += 1;
+    }
+    let want = if ored == 0 { new as u32 } else { core::cmp::min(new as u32, ored.trailing_zeros()) };
+    assert!(fic == want, "first_interesting_column is not the lowest column with a surprising value (capped at the offset)");
+    kani::cover!(n == 3);
+    kani::cover!(new >= 56 || (ored != 0 && ored.trailing_zeros() > new as u32)); // only late surprising ones: the cap applies (no late zone at offset 56)
+    kani::cover!(o == 0 || (ored != 0 && ored.trailing_zeros() < new as u32)); // a surprising zero
+    core::mem::forget(s);
+}
+
+macro_rules! move_window_contract {
+    ($name:ident, $o:expr) => {
+        #[kani::proof]
+        #[kani::unwind(10)]
+        #[kani::stub(CpcSketch::build_bit_matrix, mw_build_bit_matrix)]
+        #[kani::stub(CpcSketch::refresh_kxp, mw_refresh_kxp)]
+        #[kani::stub(crate::cpc::pair_table::PairTable::maybe_insert, mw_maybe_insert)]
+        fn $name() {
+            move_window_contract_case($o);
+        }
+    };
+}
+
+//@ family: move_window_contract
+//@ props: C05 C17
+//@ tier: quick
+//@ timeout: 900
+//@ functions: cpc::sketch::CpcSketch::move_window
+//@ functions: cpc::pair_table::PairTable::clear
+//@ functions: cpc::determine_correct_offset
+//@ unwind: 10
+//@ stubs: CpcSketch::build_bit_matrix -> returns an arbitrary symbolic 4-row matrix; PairTable::maybe_insert -> recorder (returns true); CpcSketch::refresh_kxp -> no-op
+//@ replay_stub: cpc/sketch.rs | pub(super) fn build_bit_matrix(&self) -> Vec<u64> { | if true { return self::verif_kani_cpc_sketch::mw_build_bit_matrix(self); }
+//@ replay_stub: cpc/sketch.rs | fn refresh_kxp(&mut self, bit_matrix: &[u64]) { | if true { return self::verif_kani_cpc_sketch::mw_refresh_kxp(self, bit_matrix); }
+//@ replay_stub: cpc/pair_table.rs | pub fn maybe_insert(&mut self, item: u32) -> bool { | if true { return crate::cpc::sketch::verif_kani_cpc_sketch::mw_maybe_insert(self, item); }
+//@ bounds: lg_k = 2 (4 rows x 64 columns; move_window is parametric in lg_k), old window offset concrete per instance (0, 7 = the refresh_kxp path, 30, 55 = the last move), the matrix returned by build_bit_matrix arbitrary with at most 2 surprising values per row after the move, a stale table entry and first_interesting_column arbitrary before the move, num_coupons any value for which the new offset is the correct one
+//@ assumes: build_bit_matrix returns the matrix the sketch denotes (decided against spec_matrix by c05_windowed_step_* / c05_windowed_update_light_*); maybe_insert stores a novel item (decided by c05_pair_table_insert_step)
+//@ desc: move_window re-encodes the matrix exactly: new offset = old + 1, window bytes = columns new..new+8, the surprising values handed to the cleared table are distinct, lie outside the window and, together with the all-ones early zone and the window, denote the matrix that went in; first_interesting_column = min(new offset, lowest column holding a surprising value), so it never exceeds the offset and only skips full columns; no debug assertion or overflow
+move_window_contract!(c05_move_window_contract_0_to_1, 0);
+move_window_contract!(c05_move_window_contract_7_to_8, 7);
+move_window_contract!(c05_move_window_contract_30_to_31, 30);
+move_window_contract!(c05_move_window_contract_55_to_56, 55);
+//@ endfamily: x
+
+// ---------------------------------------------------------------------------------------------
+// When is the window moved? update_windowed with move_window replaced by a recorder that only bumps the
+// offset: the move must happen exactly on the update after which the offset prescribed by the coupon
+// count (determine_correct_offset = floor((8C - 19K) / 8K)) changes - the other half of the composition
+// with the contract harnesses above.
+// ---------------------------------------------------------------------------------------------
+static mut MW_MOVES: u32 = 0;
+pub(crate) fn rec_move_window(s: &mut CpcSketch) {
+    unsafe {
+        MW_MOVES += 1;
+    }
+    s.window_offset += 1;
+}
+
+fn window_move_trigger_case(o: u8) {
+    let window: [u8; K] = kani::any();
+    let c0: u32 = 16 * (o as u32) + popcount_bytes(&window);
+    kani::assume(32 * c0 >= 3 * 16);
+    kani::assume(spec_offset(c0) == o);
+    unsafe {
+        MW_MOVES = 0;
+    }
+    let mut s = CpcSketch::new(4);
+    s.sliding_window = window.to_vec();
+    s.window_offset = o;
+    s.surprising_value_table = Some(vt::raw_table(2, &[u32::MAX; 4]));
+    s.first_interesting_column = 0;
+    s.kxp = 8.0;
+    s.hip_est_accum = 100.0;
+    s.num_coupons = c0;
+    let row: u32 = kani::any();
+    let col: u32 = kani::any();
+    kani::assume(row < 16 && col < 64);
+    let in_window = (col as u8) >= o && (col as u8) < o + 8;
+    let was_set = if in_window { window[row as usize] & (1u8 << (col as u8 - o)) != 0 } else { (col as u8) < o };
+    s.row_col_update((row << 6) | col);
+    let moves = unsafe { MW_MOVES };
+    assert!(s.num_coupons == c0 + if was_set { 0 } else { 1 });
+    assert!(moves <= 1);
+    assert!(s.window_offset == o + moves as u8);
+    assert!(s.window_offset == spec_offset(s.num_coupons), "the window offset does not follow the coupon count: move_window was called too early, too late or not at all");
+    kani::cover!(moves == 1);
+    kani::cover!(moves == 0 && !was_set);
+    core::mem::forget(s);
+}
+
+macro_rules! window_move_trigger {
+    ($name:ident, $o:expr) => {
+        #[kani::proof]
+        #[kani::unwind(18)]
+        #[kani::stub(CpcSketch::move_window, rec_move_window)]
+        #[kani::stub(crate::cpc::pair_table::PairTable::rebuild, cut_rebuild)]
+        fn $name() {
+            window_move_trigger_case($o);
+        }
+    };
+}
+
+//@ family: window_move_trigger
+//@ props: C05 C17
+//@ tier: quick
+//@ timeout: 900
+//@ functions: cpc::sketch::CpcSketch::row_col_update
+//@ functions: cpc::sketch::CpcSketch::update_windowed
+//@ functions: cpc::sketch::CpcSketch::update_hip
+//@ unwind: 18
+//@ stubs: CpcSketch::move_window -> recorder (counts the call, offset += 1); PairTable::rebuild -> must-not-reach cut
+//@ replay_stub: cpc/sketch.rs | fn move_window(&mut self) { | if true { return self::verif_kani_cpc_sketch::rec_move_window(self); }
+//@ bounds: lg_k = 4, windowed state without surprising values, concrete window offset per instance (0, 3, 55), all 16 window bytes symbolic with a coupon count consistent with the offset; one symbolic (row, col)
+//@ desc: after one update the window offset equals floor((8C - 19K) / 8K) of the new coupon count: move_window is called exactly once on the update that crosses the threshold and never otherwise; the debug assertions around the call hold
+window_move_trigger!(c05_window_move_trigger_offset_0, 0);
+window_move_trigger!(c05_window_move_trigger_offset_3, 3);
+window_move_trigger!(c05_window_move_trigger_offset_55, 55);
+//@ endfamily: x
+
+// ---------------------------------------------------------------------------------------------
 // serialization at sketch level (Empty / Sparse / Hybrid), wrapper agreement, update() derivation
 // ---------------------------------------------------------------------------------------------
 use crate::verif_kani_common::stub_format;
